@@ -510,6 +510,41 @@ func c12Worker(c *Ctx) {
 			fill = true
 		}
 	}
+	if !fill {
+		// the nonce window of every lane buffer taken once into an array of views (as in C11): views[i] = buf[i][off:] stored
+		// by a loop over the whole batch, nothing else stored into it, and the lane loop ranges over the views
+		off := "call<github.com/iotaledger/iota.go/encoding/b1t6.EncodedLen>(len(" + PD + "))"
+		for _, t := range deepCallTerms(c, b) {
+			bd, ok := ana.Match("call<*>(load(iaddr(slice($views, 0, none), bin<+>(ind<+1>(-1), 1))), bin<+>(ind<+"+WS+">("+PS+"), conv<uint64>(bin<+>(ind<+1>(-1), 1))))", t)
+			if !ok || bd["$views"].V == nil {
+				continue
+			}
+			vw := bd["$views"]
+			vb, m := ana.Match("obj(alloc<["+WS+"][]int8>, maybe(store(iaddr(self, ind<+1>(0)), slice(load(iaddr($buf, ind<+1>(0))), "+off+", none))))", vw)
+			if !m || vb["$buf"].V == nil || !matches("slice(obj(alloc<["+WS+"][]int8>, ...), 0, none)", vb["$buf"]) {
+				continue
+			}
+			root, bufRoot := b.Root(vw.V), b.Root(vb["$buf"].V)
+			nSt, whole := 0, false
+			for _, blk := range fn.Blocks {
+				for _, ins := range blk.Instrs {
+					st, isSt := ins.(*ssa.Store)
+					if !isSt || b.Root(st.Addr) != root {
+						continue
+					}
+					nSt++
+					for _, l := range rangeLoopsAll(b) {
+						if l.Blocks[blk] && l.Coll.V != nil && (b.Root(l.Coll.V) == root || b.Root(l.Coll.V) == bufRoot) {
+							whole = true
+						}
+					}
+				}
+			}
+			if nSt == 1 && whole {
+				fill = true
+			}
+		}
+	}
 	r.Check(fill, "C12.return.lane-filling", c.P.Pos(fn.Pos()), "lane i of each batch carries nonce base+i at the digest offset")
 	// thresholds are computed once in Mine and handed to every worker
 	mb := ana.NewBuilder(c.P, mine)
